@@ -533,11 +533,11 @@ def describe_seq(seq, runner):
 
 def check_kvs(chk, rng, runner, catches, dirsize):
     tier = chk.tier
-    nseq = 1400 if tier == "quick" else 20000
+    nseq = 3500 if tier == "quick" else 40000
     maxops = 12 if tier == "quick" else 25
     seqs = []
     for j in range(nseq):
-        conflict = rng.random() < 0.15
+        conflict = rng.random() < 0.25
         seqs.append(gen_sequence(rng, rng.randint(3, maxops), runner.lens, conflict))
     all_recs = []
     reqs = []
@@ -627,7 +627,7 @@ def check_dfcache(chk, rng, workdir, dirsize):
     clock = PlannedClock()
     orig_time = fcm.time
     fcm.time = clock
-    nseq = 150 if chk.tier == "quick" else 2500
+    nseq = 500 if chk.tier == "quick" else 6000
     keys = ["a", "b", "c", "e/f", "e/g"]
     bad_prop = bad_corr = None
     reqs, runs = [], []
@@ -722,7 +722,7 @@ def check_tables(chk, rng, workdir, dirsize):
     clock = PlannedClock()
     orig_time = fcm.time
     fcm.time = clock
-    nseq = 120 if chk.tier == "quick" else 2000
+    nseq = 300 if chk.tier == "quick" else 4000
     keys = ["p", "q", "r/s", "r/t"]
     bad_prop = bad_corr = None
     reqs, runs = [], []
@@ -834,6 +834,38 @@ def witness_prefix(runner):
     return seq, recs
 
 
+def witness_mem_over_limit(workdir):
+    """C16_mem_over_limit_refuted on the real TableStorage: a table whose pickle fits the limit but whose
+    DataFrame memory does not.  Returns (results, (len, mem))."""
+    import pandas as pd
+    from klongpy import KlongInterpreter
+    from klongpy.db.sys_fn_kvs import TableStorage
+    from klongpy.db.sys_fn_db import Table
+    from klongpy.db.helpers import serialize_df, df_memory_usage
+    root = os.path.join(workdir, "k3")
+    os.makedirs(root)
+    df = pd.DataFrame({"v": ["abc"] * 30}, index=list(range(30)))
+    ln, mem = len(serialize_df(df)), int(df_memory_usage(df))
+    mx = (ln + mem) // 2
+    ts = TableStorage(root, max_memory=mx)
+    ts.cache.executor.shutdown(wait=True)
+    ts.cache.executor = LazyExecutor()
+    k = KlongInterpreter()
+    out = []
+    for text, tb in (('ts,"p",,tb', Table(df)), ('ts?"p"', None), ('ts,"p",,tb', Table(pd.DataFrame({"v": ["z"]}, index=[99])))):
+        k["ts"] = ts
+        if tb is not None:
+            k["tb"] = tb
+        try:
+            k(text)
+            out.append(["ok"])
+        except BaseException as e:  # noqa
+            out.append(["err", exc_code(e)])
+    stuck = [(n, bool(w)) for n, (w, b, f) in ts.cache.file_futures.items()]
+    shutil.rmtree(root, ignore_errors=True)
+    return out, (ln, mem, mx), stuck
+
+
 def run(tier, replay=None):
     chk = Check("C16", tier)
     rng = random.Random(chk.seed * 7919 + 16)
@@ -864,6 +896,17 @@ def run(tier, replay=None):
             elif impl_shows != model_predicts:
                 bad_corrs.append(dict(describe_seq(seq, runner), what="prefix-key witness: model and implementation disagree",
                                       impl=[r["res"] for r in recs], model=str(m)[:300]))
+            # known finding: in-memory size over the limit while the serialised length fits
+            res3, (ln, mem, mx3), stuck = witness_mem_over_limit(workdir)
+            m3 = chk.run_model([sx(["kvs", 1, dirsize, mx3, [["set", [112], [1, ln, mem], 1], ["get", [112], 2], ["set", [112], [2, 600, 100], 3]]])])[0]
+            model3 = [list(x[0]) for x in m3] == [["err", 6]] * 3
+            impl3 = res3 == [["err", 6]] * 3 and stuck == [("p", True)]
+            rep3 = {"kind": "tables", "what": "TableStorage(max_memory=%d); set of a table with pickle length %d and DataFrame memory %d; get; set" % (mx3, ln, mem),
+                    "impl": res3, "stuck_entries": stuck}
+            if impl3 and model3:
+                chk.finding("C16-table-mem-over-limit", "table larger in memory than the limit leaves its key unusable", rep3)
+            elif impl3 != model3:
+                bad_corrs.append(dict(rep3, kind="mem-over-limit witness", model=str(m3)[:300]))
             bp, bk, bc = check_kvs(chk, rng, runner, catches, dirsize)
         finally:
             runner.close()
@@ -899,7 +942,7 @@ def run(tier, replay=None):
                           {"broken_obligation": proof["broken"], "coq_error": proof["error"], "generated": chk.generated_text}, no_input=True)
     return chk.finish(
         rule="seeded random operation sequences (set / get / get of a never-set key / unload / reopen with a new limit / value larger than the limit) "
-             "over 4 flat and 3 nested keys (+4 path-prefix-conflicting keys in 15% of the sequences), 18 values of every picklable Klong kind, "
+             "over 4 flat and 3 nested keys (+4 path-prefix-conflicting keys in 25% of the sequences), 18 values of every picklable Klong kind, "
              "limits one-entry..everything..default, planned clock with ties and steps back; state compared after every operation. "
              "evaluations = operations executed on the implementation and compared; distinct = distinct (limit kind, op-kind sequence)",
         trusted_base=TRUSTED, assumptions=ASSUME)
